@@ -66,13 +66,16 @@ def run_tlc(jobdir, module, invariants, tracefile, heap='3g', extra_cfg='', time
     open(jobdir + '/trace.cfg', 'w').write('\n'.join(cfg) + '\n')
     meta = jobdir + '/meta'
     shutil.rmtree(meta, ignore_errors=True)
-    cmd = [JAVA[0], '-Xmx' + heap, '-Xss64m'] + JAVA[1:] + ['-workers', '1', '-metadir', meta, '-config', 'trace.cfg', 'TraceCheck.tla']
+    # TLC unpacks its standard modules into java.io.tmpdir: keep that inside the job directory, not /tmp
+    os.makedirs(jobdir + '/jtmp', exist_ok=True)
+    cmd = [JAVA[0], '-Xmx' + heap, '-Xss64m', '-Djava.io.tmpdir=' + jobdir + '/jtmp'] + JAVA[1:] + ['-workers', '1', '-metadir', meta, '-config', 'trace.cfg', 'TraceCheck.tla']
     try:
         r = sh(cmd, cwd=jobdir, timeout=timeout)
     except subprocess.TimeoutExpired:
         return dict(status='error', detail='TLC timeout')
     out = r.stdout
     shutil.rmtree(meta, ignore_errors=True)
+    shutil.rmtree(jobdir + '/jtmp', ignore_errors=True)
     st = re.search(r'(\d+) states generated, (\d+) distinct states found', out)
     states = int(st.group(2)) if st else 0
     gen = int(st.group(1)) if st else 0
